@@ -18,6 +18,7 @@
  Re for-each      : loops that act on every item are never left early (break / return).
  Ra alias mutation: a local that still names a list of another object (not copied) is never mutated in place.
  Rn arg roles     : a variable named like a parameter of the callee is handed to that parameter (no exchanged roles).
+ R6 declared bands: a designed multi-band amplifier declares exactly the bands of its installed amplifiers (shared with C07-R7).
 """
 import ast
 
@@ -410,6 +411,14 @@ def rn_arg_roles(ctx):
     ctx.check('Rn.arg-roles', 'argument / parameter name scan', True, 'C15|arg-roles-scan', '', f'{n} argument(s) named like another parameter judged')
 
 
+def r6_declared_bands(ctx):
+    """R6: the bands an OMS map is built from are the bands of the amplifiers really installed: a designed multi-band amplifier
+    declares exactly those (shared with C07-R7)"""
+    from .c07 import r7_declared_bands
+    from .common import proxy
+    r7_declared_bands(proxy(ctx, 'R6', needs=True))
+
+
 from ..memo import rule_for as _memo_rule
 
 RULES_MEMO = ('Rm.memo', _memo_rule('C15', 'the spectrum map of another configuration would be reused'))
@@ -419,4 +428,4 @@ from ..presence import rule_for as _presence_rule
 
 RULES_PRESENCE = ('Rp.presence', _presence_rule('C15', 'a legal zero would be read as missing'))
 
-RULES = [('R5.common-range', r5_common_range), ('R1.layout', r1_layout), ('R2.indices', r2_indices), ('R3.grid', r3_grid), ('R4.walk', r4_walk), RULES_MEMO, RULES_PRESENCE, ('Re.for-each', re_foreach), ('Ra.alias-mutation', ra_alias), ('Rn.arg-roles', rn_arg_roles)]
+RULES = [('R5.common-range', r5_common_range), ('R1.layout', r1_layout), ('R2.indices', r2_indices), ('R3.grid', r3_grid), ('R4.walk', r4_walk), RULES_MEMO, RULES_PRESENCE, ('Re.for-each', re_foreach), ('Ra.alias-mutation', ra_alias), ('Rn.arg-roles', rn_arg_roles), ('R6.declared-bands', r6_declared_bands)]
